@@ -56,9 +56,10 @@ def write_files(case, wd):
         elif isinstance(content, dict) and content.get("imp"):
             rows, N = content["rows"], content["rows"]
             r = gen.rng(content["seed"])
+            mag = content.get("mag", 100.0)
             with open(p, "w") as f:
                 for i in range(rows):
-                    f.write("%d %.6g %.6g\n" % (i, r.random() * 100, r.standard_normal() * 100))
+                    f.write("%d %.6g %.6g\n" % (i, r.random() * mag, r.standard_normal() * mag))
                 f.write(content.get("tail", ""))
         else:
             with open(p, "wb") as f:
@@ -189,8 +190,16 @@ def cases(draw, tiny=False):
     if "impfile" in stress:
         d = cfggen.derive(o)
         N = d["nmax_wake"]
-        kind = draw(st.sampled_from(["rows", "rows", "tokens", "missing", "garbage"]))
-        if kind == "rows":
+        kind = draw(st.sampled_from(["rows", "rows", "huge", "tokens", "missing", "garbage"]))
+        if kind == "huge":
+            # legal finite numbers at the edge of single precision: the wake may overflow to inf/NaN
+            files["z.dat"] = dict(imp=True, rows=N, seed=draw(gen.seeds()), tail="", mag=float(10 ** draw(st.sampled_from([30, 36, 38, -30, -40]))))
+            classes.append("imphuge")
+            if "track" not in stress and draw(st.booleans()):
+                stress.append("track")
+        if kind == "huge":
+            pass
+        elif kind == "rows":
             rows = draw(st.sampled_from([0, 1, max(0, N // 2 - 1), N // 2, N - 1, N, N + 1, 3 * N]))
             if rows > 20000:
                 rows = N
